@@ -1,4 +1,7 @@
 import AasVerif.Lemmas.XsdTables
+import AasVerif.Lemmas.XsdTop
+import AasVerif.Lemmas.XsdReadSet
+import AasVerif.Props.C16
 import AasVerif.Gen.Xsd
 import AasVerif.Gen.Retree
 /-!
@@ -66,5 +69,61 @@ example : translate Gen.Xsd.xsdLiteral Gen.Xsd.xsdRange
     [94, 91, 92, 120, 53, 101, 97, 93, 36] = .ok [91, 92, 94, 97, 93] := by decide
 /-- `^\f$` is reported as an error -/
 example : translate Gen.Xsd.xsdLiteral Gen.Xsd.xsdRange [94, 92, 102, 36] = .nonXml 12 := by decide
+
+/-! ### C13b — the translated pattern is a legal XSD pattern and accepts at least the same texts -/
+
+/-- *table*: the shape of the two tables the general theorem needs (every entry is `\e` with `e`
+a single-character escape of XSD denoting the key; every metacharacter has an entry). -/
+theorem xsd_tables_shape :
+    shapeOk XsdPattern.metaLit Gen.Xsd.xsdLiteral = true ∧ shapeOk XsdPattern.metaRng Gen.Xsd.xsdRange = true := by
+  decide
+
+/-- **What is written is what an XSD processor reads.** For every pattern the front end parses
+(`r`, with at least one alternative — the front end demands exactly one), if `_translate_pattern`
+returns a text then that text is a regular expression of XML Schema, and it is read as the tree
+`r` without its anchors, with every character written verbatim and the quantifiers greedy. No
+construct of the parser's image is excluded: literals (every escape of both tables, `\x`/`\u`/`\U`
+encoded characters), sets (ranges, complement, dashes and carets in every position), groups, unions,
+all quantifier forms. -/
+theorem translate_reads_back (p t : Text) (r : Regex) (hp : parse [.str p] = .ok r) (hne : r.uniates ≠ [])
+    (ht : translate Gen.Xsd.xsdLiteral Gen.Xsd.xsdRange p = .ok t) :
+    XsdRe.read t = .ok (normUnion (raUnion r)) := by
+  have hin := C16.parse_outputs_inRange _ r hp
+  unfold inRangeTop at hin
+  simp only [Bool.and_eq_true] at hin
+  unfold translate at ht
+  rw [hp] at ht
+  exact read_translateTree _ _ xsd_tables_shape.1 (setLemma _ xsd_tables_shape.2) r hin.1 hne t ht
+
+/-- **C13b (pattern_superset).** The XSD pattern accepts every text without line breaks that the
+meta-model pattern accepts (`FullMatch`: `re.match` of an anchored pattern on a text without a
+line break). -/
+theorem pattern_superset (p t : Text) (r : Regex) (hp : parse [.str p] = .ok r) (hne : r.uniates ≠ [])
+    (ht : translate Gen.Xsd.xsdLiteral Gen.Xsd.xsdRange p = .ok t) :
+    ∃ x, XsdRe.read t = .ok x ∧ ∀ s, NoLB s → FullMatch r s → XsdRe.Matches x s :=
+  ⟨_, translate_reads_back p t r hp hne ht, fun s hn hm => sem_union r [] s [] [] [] hm hn⟩
+
+/-- `_translate_pattern` never raises out of the parser (the values `[pattern]` always satisfy the
+precondition of `Cursor`). -/
+theorem translate_parser_never_raises (p : Text) (s : Site) :
+    translate Gen.Xsd.xsdLiteral Gen.Xsd.xsdRange p ≠ .crashParse s := by
+  intro h
+  unfold translate at h
+  cases hp : parse [.str p] with
+  | ok r =>
+    rw [hp] at h
+    simp only [translateTree] at h
+    split at h
+    · cases h
+    · split at h <;> cases h
+  | err e => rw [hp] at h; cases h
+  | crash s' => exact C16.parse_never_crashes [.str p] rfl s' hp
+
+/-- non-vacuity: `^[\x5ea-c-]{2,}|b\$$` meets the hypotheses of `pattern_superset` -/
+example : ∃ r t, parse [.str [94, 91, 92, 120, 53, 101, 97, 45, 99, 45, 93, 123, 50, 44, 125, 124, 98, 92, 36, 36]] = .ok r ∧
+    r.uniates ≠ [] ∧
+    translate Gen.Xsd.xsdLiteral Gen.Xsd.xsdRange
+      [94, 91, 92, 120, 53, 101, 97, 45, 99, 45, 93, 123, 50, 44, 125, 124, 98, 92, 36, 36] = .ok t :=
+  ⟨_, _, rfl, by simp [Retree.Union.uniates], rfl⟩
 
 end AasVerif.Props.C13
